@@ -262,6 +262,9 @@ def scan (len : Nat) : List Chunk → Nat → Nat → Sum Nat (Nat × Nat)
     else if s = 0 ∨ c.2 < s then scan len rest c.2 c.1
     else scan len rest s sfp
 
+/-- `avail = cp <= __brkval ? 0 : cp - __brkval` with `cp = __malloc_heap_end` -/
+def availOf (lim brk : Nat) : Nat := if lim ≤ brk then 0 else lim - brk
+
 def malloc (cfg : Cfg) (h : Heap) (len0 : Nat) : Res :=
   let len := minLen (roundLen cfg.W len0)
   match scan len h.flp 0 0 with
@@ -284,7 +287,7 @@ def malloc (cfg : Cfg) (h : Heap) (len0 : Nat) : Res :=
           some (sfp2 + 8), [.w sfp2 8, .w sfp1 8]⟩
     else
       -- step 3: extend the break (with the optional limit `__malloc_heap_end`)
-      let avail := if cfg.lim ≤ h.brk then 0 else cfg.lim - h.brk
+      let avail := availOf cfg.lim h.brk
       if cfg.lim ≠ 0 ∧ ¬ (avail ≥ len ∧ avail ≥ len + 8) then
         ⟨h, none, []⟩
       else
